@@ -2,12 +2,12 @@
 (* constants for the C07 configs; Emit prints every terminal state (one per script) *)
 EXTENDS Bailiwick, Json
 
-AllPre   == {"none", "wrongid", "wrongq", "wrongidq"}
+AllPre   == {"none", "wrongid", "wrongq", "wrongidq", "tcpwrongid"}
 NoPre    == {"none"}
 AllKinds == AnsKinds \cup RefKinds
 
 (* every filter on: what the property demands *)
-F_sound == [IdCheck |-> TRUE, QuestionCheck |-> TRUE, GlueBailiwick |-> TRUE, GlueRoutable |-> TRUE,
+F_sound == [IdCheck |-> TRUE, StreamIdCheck |-> TRUE, QuestionCheck |-> TRUE, GlueBailiwick |-> TRUE, GlueRoutable |-> TRUE,
             Coherent |-> TRUE, ClassCheck |-> TRUE, Progress |-> TRUE, ParentDetect |-> TRUE,
             AnswerOwnerFilter |-> TRUE, ClearAdditional |-> TRUE, CacheOwnerFilter |-> TRUE]
 (* the pinned code: nothing filters the answer section by owner before it reaches the client *)
@@ -15,6 +15,8 @@ F_asis  == [F_sound EXCEPT !.AnswerOwnerFilter = FALSE]
 
 (* one filter off each: the matching Containment clause must fail (non-vacuity of the model) *)
 F_noid       == [F_sound EXCEPT !.IdCheck = FALSE]
+F_nostreamid == [F_sound EXCEPT !.StreamIdCheck = FALSE]
+F_noquestion_s == [F_sound EXCEPT !.QuestionCheck = FALSE]   \* with an owner filter: an empty answer lands under the victim name
 F_noquestion == [F_asis EXCEPT !.QuestionCheck = FALSE]   \* on the pinned code: stored under the victim name
 F_noglueb    == [F_sound EXCEPT !.GlueBailiwick = FALSE]
 F_nogluer    == [F_sound EXCEPT !.GlueRoutable = FALSE]
